@@ -131,6 +131,13 @@ exactly the calls that return -/
 theorem deep_copy_needs_fuel (heap : Heap) (v : HVal) : deepCopy 0 heap v = none := rfl
 
 example : deepCopy 1 [.list [.lref 1], .list []] (.lref 0) = none := by rfl
+
+/-- what the model (= `KValue::deep_copy`) defines for internal aliasing: a container that occurs
+twice is copied twice — the result is a *tree*, `t = [inner, inner]` becomes two independent lists.
+(`deep_copy_disjoint` only promises the same value tree, disjoint from the original.) -/
+example : deepCopy 5 [.list [.lref 1, .lref 1], .list [.num (.i 1)]] (.lref 0) =
+    some ([.list [.lref 1, .lref 1], .list [.num (.i 1)], .list [.num (.i 1)], .list [.num (.i 1)],
+           .list [.lref 2, .lref 3]], .lref 4) := by rfl
 example : deepCopyLimit = 256 := rfl
 
 /-! ## immutable values -/
